@@ -27,6 +27,8 @@ const TU: i64 = T0 - HOUR;
 const FAR: i64 = T0 + 300 * DAY;
 const NOW0: i64 = T0;
 const NOW1: i64 = T0 + 300;
+/// ROAs of the large publication point.
+const N_ROAS: u32 = 40;
 
 /// Syscalls at which kills are injected.
 const KILL_SYSCALLS: [&str; 11] = [
@@ -46,6 +48,11 @@ struct Case {
     serve0: Option<Serve>,
     /// Served to the run that is killed.
     serve1: Serve,
+    /// CAs whose stored copy is made internally inconsistent before the
+    /// killed run (cached manifest number overwritten): the run rejects the
+    /// stored copy in place and then stores the fetched version.
+    #[serde(default)]
+    tamper: Vec<String>,
     /// CAs that hold a valid stored version before the killed run: without
     /// collector they must contribute one of their versions, never nothing.
     #[serde(default)]
@@ -97,22 +104,37 @@ fn world() -> World {
         for vi in 0..2u32 {
             let mut v = version(vi as u64 + 1, TU + vi as i64 * 10, FAR);
             v.ee_not_after = if name == "e" || name == "g" { NOW0 + 100 } else { FAR };
-            if name == "n" { v.mft_publish = Publish::Missing }
-            v.objects.push(roa(
-                "x.roa", 70 + vi as u64, 65000 + i * 100 + vi, &format!("10.{i}.{vi}.0/24"), None
-            ));
+            if name == "n" && vi == 0 {
+                // Version 0 of n: nothing retrievable (no manifest).
+                v.mft_publish = Publish::Missing;
+            }
+            else if name == "n" {
+                // Version 1 of n: a large point, so that storing it takes
+                // several flushes of the 8 kB write buffer.
+                for k in 0..N_ROAS {
+                    v.objects.push(roa(
+                        &format!("r{k:02}.roa"), 100 + k as u64, 65000 + i * 100 + (k % 90),
+                        &format!("10.{i}.{k}.0/24"), None
+                    ));
+                }
+            }
+            else {
+                v.objects.push(roa(
+                    "x.roa", 70 + vi as u64, 65000 + i * 100 + vi, &format!("10.{i}.{vi}.0/24"), None
+                ));
+            }
             kid.versions.push(v);
-            if name != "a" { break }
+            if name != "a" && name != "b" && name != "n" { break }
         }
         world.cas.push(kid);
     }
     world
 }
 
-fn serve(root: usize, a: usize, with_g: bool) -> Serve {
+fn serve(root: usize, a: usize, b: usize, n: usize, with_g: bool) -> Serve {
     let mut points = vec![
-        ("root".to_string(), root), ("a".to_string(), a), ("b".to_string(), 0),
-        ("e".to_string(), 0), ("n".to_string(), 0),
+        ("root".to_string(), root), ("a".to_string(), a), ("b".to_string(), b),
+        ("e".to_string(), 0), ("n".to_string(), n),
     ];
     if with_g { points.push(("g".to_string(), 0)) }
     Serve { tas: vec![ta_file(TA_URI, "root", 0, Res::all())], points, rsync: vec![] }
@@ -437,6 +459,9 @@ struct Prepared {
     create_points: Vec<(bool, String, usize)>,
     /// What the harness expects the uninterrupted run to consist of.
     ref_steps: String,
+    /// The point files (relative to the cache) holding a stored version
+    /// after the uninterrupted run.
+    versions: Vec<String>,
     /// The case (without the kill) this was prepared for.
     key: String,
     /// Crashed directory states whose follow-ups have been run already.
@@ -491,6 +516,13 @@ fn prepare_inner(case: &Case) -> Result<Prepared, String> {
         let out = bench.run(&EngineOpts::default());
         if !out.ok() { return Err(format!("preparing run ended with {}", out.status.as_str())) }
     }
+    for name in &case.tamper {
+        if let Some(ca) = case.world.ca(name) {
+            rpkitest::store::tamper_cached(
+                &bench.cache, &ca.mft_uri(), rpkitest::build::serial_from_hex("99"), TU + 99
+            );
+        }
+    }
     let tree = builder.server_tree(&case.world, &case.serve1);
     prime_local(&bench.cache, &tree);
     let mut lab = Lab {
@@ -516,7 +548,12 @@ fn prepare_inner(case: &Case) -> Result<Prepared, String> {
     copy_dir(&base, &cache2);
     let res2 = lab.vrps(&cache2, NOW1, &[], Some((false, None)));
     let parsed2 = parse_trace(&res2.trace, &cache2, false);
-    let ref_steps = expected_steps(&base, &base_sizes, &ref_listing, &cache);
+    let rejected: Vec<String> = case.tamper.iter().filter_map(|name| {
+        case.world.ca(name).map(|ca| ca.mft_uri().trim_start_matches("rsync://").to_string())
+    }).collect();
+    let ref_steps = expected_steps(&base, &base_sizes, &ref_listing, &cache, &rejected);
+    let versions: Vec<String> = rpkitest::store::dump_store(&cache).points.iter()
+        .filter(|p| p.manifest.is_some()).map(|p| format!("stored/{}", p.path)).collect();
     let mut kill_points: BTreeSet<(bool, String, usize)> = BTreeSet::new();
     let mut create_points: Vec<(bool, String, usize)> = Vec::new();
     for (follow, parsed) in [(true, &parsed), (false, &parsed2)] {
@@ -540,7 +577,7 @@ fn prepare_inner(case: &Case) -> Result<Prepared, String> {
         ref_ops: normalise(&parsed.ops), ref_payload, ref_listing,
         ref_counts: parsed.counts, ref_main_counts: parsed2.main_counts,
         kill_points: kill_points.into_iter().collect(), create_points,
-        ref_steps, key: case_key(case), seen_states: BTreeSet::new(),
+        ref_steps, versions, key: case_key(case), seen_states: BTreeSet::new(),
         _bench: bench,
     })
 }
@@ -549,7 +586,7 @@ fn prepare_inner(case: &Case) -> Result<Prepared, String> {
 /// model's `steps=` format, from the cache listings before and after it.
 fn expected_steps(
     base: &Path, base_sizes: &BTreeMap<String, u64>, ref_listing: &BTreeMap<String, u64>,
-    cache_after: &Path,
+    cache_after: &Path, rejected: &[String],
 ) -> String {
     let mut counts: BTreeMap<&'static str, usize> = BTreeMap::new();
     let before = rpkitest::store::dump_store(base);
@@ -560,9 +597,17 @@ fn expected_steps(
         if !changed { continue }
         if point.manifest.is_some() {
             *counts.entry("replace/point").or_insert(0) += 1;
-            // A point seen for the first time is created (`LastAttempt`
+            // A point seen for the first time is created, and the header
+            // of a never-successful point is refreshed (`LastAttempt`
             // header written in place) before it is updated.
-            if old.is_none() { *counts.entry("rewrite/point").or_insert(0) += 1 }
+            if old.map(|o| o.manifest.is_none()).unwrap_or(true) {
+                *counts.entry("rewrite/point").or_insert(0) += 1
+            }
+            // An inconsistent stored copy is rejected (header rewritten in
+            // place) before the fetched version is stored.
+            if rejected.iter().any(|suffix| point.path.ends_with(suffix.as_str())) {
+                *counts.entry("rewrite/point").or_insert(0) += 1
+            }
         }
         else { *counts.entry("rewrite/point").or_insert(0) += 1 }
     }
@@ -601,7 +646,9 @@ fn render_ops(prep: &Prepared, k: usize) -> (String, PathIds) {
         Op::Rename(p, q) => format!("( r {} {} )", ids.get(p), ids.get(q)),
         Op::Unlink(p) => format!("( u {} )", ids.get(p)),
     }).collect();
-    (format!("fscrash ( ( {} ) ( {} ) {k} )", inits.join(" "), ops.join(" ")), ids)
+    let versions: Vec<String> = prep.versions.iter()
+        .filter_map(|p| ids.ids.get(p).map(|id| id.to_string())).collect();
+    (format!("fscrash ( ( {} ) ( {} ) {k} ( {} ) )", inits.join(" "), ops.join(" "), versions.join(" ")), ids)
 }
 
 /// File sizes after the first `k` operations (the harness's own reading of
@@ -673,7 +720,7 @@ fn old_or_new(world: &World, must_have: &[String], served: &[String]) -> Result<
     Ok(())
 }
 
-fn run_input(ctx: &mut Ctx, prepared: &mut Option<Prepared>, input: &Value) {
+fn run_input(ctx: &mut Ctx, pool: &mut BTreeMap<String, Prepared>, input: &Value) {
     let case: Case = match serde_json::from_value(input.clone()) {
         Ok(case) => case,
         Err(err) => {
@@ -681,16 +728,17 @@ fn run_input(ctx: &mut Ctx, prepared: &mut Option<Prepared>, input: &Value) {
             return
         }
     };
-    if prepared.as_ref().map(|p| p.key != case_key(&case)).unwrap_or(true) {
+    let key = case_key(&case);
+    if !pool.contains_key(&key) {
         match prepare(&case) {
-            Ok(prep) => *prepared = Some(prep),
+            Ok(prep) => { pool.insert(key.clone(), prep); }
             Err(err) => {
                 ctx.oracle_fail("setup-failed", &err, input, json!(null));
                 return
             }
         }
     }
-    let prep = prepared.as_mut().unwrap();
+    let prep = pool.get_mut(&key).unwrap();
     let Some(kill) = case.kill.as_ref() else {
         // The reference case: trace shape against the expectation.
         let cache = prep.lab.fresh_dir("shape");
@@ -818,76 +866,63 @@ fn run_input(ctx: &mut Ctx, prepared: &mut Option<Prepared>, input: &Value) {
     let _ = fs::remove_dir_all(&cache);
 }
 
-fn generate(ctx: &mut Ctx, prepared: &mut Option<Prepared>) -> Vec<Value> {
+fn generate(ctx: &mut Ctx, pool: &mut BTreeMap<String, Prepared>) -> Vec<Value> {
     let world = world();
-    let abc = vec!["root".to_string(), "a".to_string(), "b".to_string()];
+    let ra = vec!["root".to_string(), "a".to_string()];
+    // Quick and thorough: (A) a filled store — root and a updated, b's stored copy rejected
+    // and replaced, n (so far only a LastAttempt header) stores its first, large version,
+    // e and g expire; (B) the very first run on an empty cache directory.
     let base = Case {
-        world: world.clone(), serve0: Some(serve(0, 0, true)), serve1: serve(1, 1, false),
-        must_have: abc.clone(), kill: None,
+        world: world.clone(), serve0: Some(serve(0, 0, 0, 0, true)), serve1: serve(1, 1, 1, 1, false),
+        tamper: vec!["b".into()], must_have: ra.clone(), kill: None,
     };
-    let mut cases = vec![to_json(&base)];
-    // Kill points are enumerated from the trace of the current code.
-    if prepared.is_none() {
-        match prepare(&base) {
-            Ok(prep) => *prepared = Some(prep),
-            Err(err) => {
-                ctx.oracle_fail("setup-failed", &err, &cases[0], json!(null));
-                return cases
-            }
-        }
-    }
-    let prep = prepared.as_ref().unwrap();
+    let first = Case {
+        world: world.clone(), serve0: None, serve1: serve(0, 0, 0, 1, true),
+        tamper: vec![], must_have: vec![], kill: None,
+    };
+    let unchanged = Case {
+        world: world.clone(), serve0: Some(serve(1, 1, 1, 1, false)), serve1: serve(1, 1, 1, 1, false),
+        tamper: vec![], must_have: vec!["root".into(), "a".into(), "b".into(), "n".into()], kill: None,
+    };
     let thorough = !ctx.quick();
-    if thorough {
-        // Every occurrence of every injectable syscall.
-        for follow in [false, true] {
-            let counts = if follow { &prep.ref_counts } else { &prep.ref_main_counts };
-            for syscall in KILL_SYSCALLS {
-                // (`openat`: see below, only the calls that create files.)
-                if syscall == "openat" { continue }
-                for when in 1..=counts.get(syscall).copied().unwrap_or(0) {
-                    let mut case = base.clone();
-                    case.kill = Some(Kill { follow, syscall: syscall.into(), when });
-                    cases.push(to_json(&case));
+    let scenarios = if thorough { vec![base, first, unchanged] } else { vec![base, first] };
+    let mut cases = Vec::new();
+    for (idx, scenario) in scenarios.iter().enumerate() {
+        cases.push(to_json(scenario));
+        // Kill points are enumerated from the trace of the current code.
+        let key = case_key(scenario);
+        if !pool.contains_key(&key) {
+            match prepare(scenario) {
+                Ok(prep) => { pool.insert(key.clone(), prep); }
+                Err(err) => {
+                    ctx.oracle_fail("setup-failed", &err, cases.last().unwrap(), json!(null));
+                    continue
                 }
             }
         }
-        for (follow, syscall, when) in &prep.create_points {
-            let mut case = base.clone();
-            case.kill = Some(Kill { follow: *follow, syscall: syscall.clone(), when: *when });
-            cases.push(to_json(&case));
-        }
-        // Two more scenarios: the very first run on an empty cache directory
-        // (every point file is created), and a run in which nothing changed.
-        let others = [
-            Case {
-                world: world.clone(), serve0: None, serve1: serve(0, 0, true),
-                must_have: vec![], kill: None,
-            },
-            Case {
-                world: world.clone(), serve0: Some(serve(1, 1, false)), serve1: serve(1, 1, false),
-                must_have: abc.clone(), kill: None,
-            },
-        ];
-        for other in others {
-            cases.push(to_json(&other));
-            match prepare(&other) {
-                Ok(prep) => {
-                    for (follow, syscall, when) in &prep.kill_points {
-                        let mut case = other.clone();
-                        case.kill = Some(Kill { follow: *follow, syscall: syscall.clone(), when: *when });
-                        cases.push(to_json(&case));
+        let prep = &pool[&key];
+        let mut kills: BTreeSet<(bool, String, usize)> = BTreeSet::new();
+        // Every cache-changing call and the call after it.
+        kills.extend(prep.kill_points.iter().cloned());
+        if thorough {
+            // The creating `openat` calls, and for the first scenario every
+            // occurrence of every other injectable syscall.
+            kills.extend(prep.create_points.iter().cloned());
+            if idx == 0 {
+                for follow in [false, true] {
+                    let counts = if follow { &prep.ref_counts } else { &prep.ref_main_counts };
+                    for syscall in KILL_SYSCALLS {
+                        if syscall == "openat" { continue }
+                        for when in 1..=counts.get(syscall).copied().unwrap_or(0) {
+                            kills.insert((follow, syscall.to_string(), when));
+                        }
                     }
                 }
-                Err(err) => ctx.oracle_fail("setup-failed", &err, cases.last().unwrap(), json!(null)),
             }
         }
-    }
-    else {
-        // Every cache-changing call and the call after it.
-        for (follow, syscall, when) in &prep.kill_points {
-            let mut case = base.clone();
-            case.kill = Some(Kill { follow: *follow, syscall: syscall.clone(), when: *when });
+        for (follow, syscall, when) in kills {
+            let mut case = scenario.clone();
+            case.kill = Some(Kill { follow, syscall, when });
             cases.push(to_json(&case));
         }
     }
@@ -899,16 +934,20 @@ static T_FOLLOW: std::sync::atomic::AtomicU64 = std::sync::atomic::AtomicU64::ne
 static T_PREP: std::sync::atomic::AtomicU64 = std::sync::atomic::AtomicU64::new(0);
 
 pub fn run_c23(ctx: &mut Ctx) {
-    ctx.rule = "one scenario: version 1 of root/a/b/e/g stored, n never published; the killed run \
-        sees new versions of root and a, an unchanged b, expired e and g (g dropped by the parent: \
-        its stored point and rsync module are removed by cleanup), rewrites the trust anchor \
-        certificate, n's LastAttempt header and the status file. Kill points = every write / \
-        pwrite64 / rename* / unlink* / ftruncate syscall (and the main thread's openat) of the \
-        real `routinator vrps` child, enumerated from the strace of the current code, once for the \
-        main thread (strace without -f) and once for the validation thread (strace -f). Follow-ups \
-        in fresh processes on copies of the crashed cache: vrps --update-after, vrps, vrps \
-        --noupdate. Non-trivial = distinct number of completed cache operations at the kill".into();
-    let mut prepared: Option<Prepared> = None;
+    ctx.rule = "scenario A (filled store): version 1 of root/a/b/e/g stored, n only a LastAttempt \
+        header, b's stored copy made inconsistent; the killed run stores new versions of root and a, \
+        rejects and replaces b, stores the FIRST version of n (40 ROAs, 70 kB: many buffer flushes), \
+        unlinks expired e and g and g's rsync module, rewrites the trust anchor certificate and the \
+        status file. Scenario B: the very first run on an EMPTY cache directory (every point file \
+        is created, then receives its first version). Thorough adds a run without changes and \
+        every occurrence of every injectable syscall. Kill points = every cache-changing write / \
+        pwrite64 / rename* / unlink* / ftruncate / copy_file_range call (to temporary AND final \
+        files) and the call after it, enumerated from the strace of the current code, once for the \
+        main thread (strace without -f) and once for the validation thread (strace -f). The \
+        collector's local copy is the same for the killed run and the follow-ups (vrps \
+        --update-after, vrps, vrps --noupdate, fresh processes on copies of the crashed cache). \
+        Non-trivial = distinct crashed directory state".into();
+    let mut prepared: BTreeMap<String, Prepared> = BTreeMap::new();
     let inputs = match ctx.replay_inputs() {
         Some(inputs) => inputs,
         None => {
@@ -920,9 +959,12 @@ pub fn run_c23(ctx: &mut Ctx) {
     for input in inputs {
         run_input(ctx, &mut prepared, &input);
     }
-    if let Some(prep) = prepared.as_ref() {
-        ctx.extra("reference_operations", json!(prep.ref_ops.iter().map(|o| format!("{o:?}")).collect::<Vec<_>>()));
-        let _ = &prep.builder;
+    for (idx, prep) in prepared.values().enumerate() {
+        ctx.extra(
+            &format!("reference_operations_{idx}"),
+            json!(prep.ref_ops.iter().map(|o| format!("{o:?}")).collect::<Vec<_>>())
+        );
+        let _ = (&prep.builder, &prep.key);
     }
     ctx.extra("milliseconds", json!({
         "prepare": T_PREP.load(std::sync::atomic::Ordering::Relaxed),
